@@ -104,7 +104,16 @@ pub fn raw_strings(rs: &str) -> Vec<String> {
     v
 }
 
-pub const HANDWRITTEN: [(&str, &str); 5] = [
+pub const HANDWRITTEN: [(&str, &str); 10] = [
+    // tiny programs for the features no short test program uses: default and named arguments, struct and enum
+    // constructors with defaults, member functions (C04 and C34 name them in their ALWAYS lists). Parameters are
+    // annotated: with inferred parameters the identifier neighbours `f + b` / `g - b` are two more inputs of the known
+    // cyclic-type non-termination (20 CPU s each in every quick run), which the inferred corpus programs already reach.
+    ("tiny/default-args", "fn f(a: int, b: int = 2) -> int {\n  a + b\n}\nf(1)\nf(1, 2)\n"),
+    ("tiny/named-args", "fn g(a: int, b: int = 5) -> int {\n  a - b\n}\ng(b = 1, a = 2)\n"),
+    ("tiny/struct-defaults", "type Pt = {\n  x: int\n  y: int = 7\n}\nPt(1)\nPt(1, y = 2).y\n"),
+    ("tiny/enum-defaults", "type Sh = Ci(r: int = 1) | Sq\nSh.Ci(r = 2)\nSh.Ci()\n"),
+    ("tiny/member-fn", "extend int {\n  fn p(self, d: int = 1) -> int = self + d\n}\n(2).p(3)\n"),
     ("hand/accents", "// café ☕ commentaire\nlet s = \"héllo wörld\"\nprintln(s)\n"),
     ("hand/japanese", "let a = \"日本語\"\nlet b = 'テキスト'\nprintln(a .. b) // 連結\n"),
     (
@@ -316,6 +325,10 @@ pub struct Neigh<'a> {
     /// char boundaries, including 0 and len
     pub bounds: Vec<usize>,
     pub alpha: &'static [&'static str],
+    /// indices of the identifier tokens
+    pub idents: Vec<usize>,
+    /// the distinct identifiers of the file, in order of first occurrence
+    pub names: Vec<&'a str>,
 }
 
 fn wordlike(c: Option<char>) -> bool {
@@ -328,7 +341,15 @@ impl<'a> Neigh<'a> {
         let sig = (0..toks.len()).filter(|i| toks[*i].kind != TK::Space).collect();
         let mut bounds: Vec<usize> = text.char_indices().map(|x| x.0).collect();
         bounds.push(text.len());
-        Neigh { text, toks, sig, bounds, alpha }
+        let idents: Vec<usize> = (0..toks.len()).filter(|i| toks[*i].kind == TK::Ident).collect();
+        let mut names: Vec<&str> = vec![];
+        for &i in &idents {
+            let w = &text[toks[i].lo..toks[i].hi];
+            if !names.contains(&w) {
+                names.push(w);
+            }
+        }
+        Neigh { text, toks, sig, bounds, alpha, idents, names }
     }
     pub fn n_identity(&self) -> usize {
         1
@@ -348,9 +369,14 @@ impl<'a> Neigh<'a> {
     pub fn n_swap(&self) -> usize {
         self.sig.len().saturating_sub(1)
     }
+    /// semantic-level neighbours: every identifier token replaced by every OTHER identifier of the same file
+    /// (duplicate parameter / field / binding names, a use of the wrong variable, function, type or field …)
+    pub fn n_ident_replace(&self) -> usize {
+        self.idents.len() * self.names.len().saturating_sub(1)
+    }
     /// closed-form size of the deviation ≤ 1 neighbourhood (before text-level deduplication)
     pub fn len(&self) -> usize {
-        self.n_identity() + self.n_prefix() + self.n_delete() + self.n_replace() + self.n_insert() + self.n_swap()
+        self.n_identity() + self.n_prefix() + self.n_delete() + self.n_replace() + self.n_insert() + self.n_swap() + self.n_ident_replace()
     }
     fn splice(&self, lo: usize, hi: usize, with: &str) -> String {
         let mut s = String::with_capacity(self.text.len() + with.len());
@@ -397,15 +423,27 @@ impl<'a> Neigh<'a> {
             return Mutant { text: self.splice(b, b, c.encode_utf8(&mut buf)), desc: format!("insert {c:?}@{b}"), pos: b };
         }
         i -= self.n_insert();
-        assert!(i < self.n_swap(), "mutant index out of range");
-        let (a, b) = (self.toks[self.sig[i]], self.toks[self.sig[i + 1]]);
-        let mut s = String::with_capacity(t.len());
-        s.push_str(&t[..a.lo]);
-        s.push_str(&t[b.lo..b.hi]);
-        s.push_str(&t[a.hi..b.lo]);
-        s.push_str(&t[a.lo..a.hi]);
-        s.push_str(&t[b.hi..]);
-        Mutant { text: s, desc: format!("swap tokens {:?}@{} and {:?}@{}", &t[a.lo..a.hi], a.lo, &t[b.lo..b.hi], b.lo), pos: a.lo }
+        if i < self.n_swap() {
+            let (a, b) = (self.toks[self.sig[i]], self.toks[self.sig[i + 1]]);
+            let mut s = String::with_capacity(t.len());
+            s.push_str(&t[..a.lo]);
+            s.push_str(&t[b.lo..b.hi]);
+            s.push_str(&t[a.hi..b.lo]);
+            s.push_str(&t[a.lo..a.hi]);
+            s.push_str(&t[b.hi..]);
+            return Mutant { text: s, desc: format!("swap tokens {:?}@{} and {:?}@{}", &t[a.lo..a.hi], a.lo, &t[b.lo..b.hi], b.lo), pos: a.lo };
+        }
+        i -= self.n_swap();
+        assert!(i < self.n_ident_replace(), "mutant index out of range");
+        // the family comes last, so the raw indices of the older families are unchanged
+        let others = self.names.len() - 1;
+        let k = self.toks[self.idents[i / others]];
+        let own = &t[k.lo..k.hi];
+        let o = self.names.iter().position(|n| *n == own).expect("the token's own text is one of the names");
+        let j = i % others;
+        let with = self.names[if j < o { j } else { j + 1 }];
+        // an identifier takes the place of an identifier: the token boundaries stay as they are
+        Mutant { text: self.splice(k.lo, k.hi, with), desc: format!("replace identifier {:?}@{} by the file's identifier {:?}", own, k.lo, with), pos: k.lo }
     }
 }
 
@@ -444,7 +482,9 @@ pub fn neigh_len(text: &str, alpha_len: usize) -> usize {
     let toks = tokenize(text);
     let sig = toks.iter().filter(|t| t.kind != TK::Space).count();
     let chars = text.chars().count();
-    1 + chars + toks.len() + sig * alpha_len + (chars + 1) * INSERT_CHARS.len() + sig.saturating_sub(1)
+    let idents: Vec<&str> = toks.iter().filter(|t| t.kind == TK::Ident).map(|t| &text[t.lo..t.hi]).collect();
+    let distinct: BTreeSet<&str> = idents.iter().copied().collect();
+    1 + chars + toks.len() + sig * alpha_len + (chars + 1) * INSERT_CHARS.len() + sig.saturating_sub(1) + idents.len() * distinct.len().saturating_sub(1)
 }
 
 pub fn plan_dev1(files: &[usize], alpha_len: usize, chunk: usize) -> Vec<Dev1Unit> {
@@ -535,6 +575,18 @@ pub fn compile_text(src: &Src) -> Outcome {
         Ok(Err(e)) => render(&e),
         Err(p) => Outcome::Panic(p),
     }
+}
+
+/// Stable key of a root cause that many inputs reach (so that one known-findings entry covers all of them).
+/// `root:cyclic-type-unionfind-borrow`: the type checker builds a self-referential type (there is no occurs check) and
+/// the union-find's merge callback re-enters the element it is merging: `RefCell already borrowed` inside the
+/// `disjoint-sets` crate. The in-process form of the known "cyclic type" defect (its other forms, stack overflow and
+/// non-termination, end the worker process and are keyed by the framework).
+pub fn root_key(p: &PanicInfo) -> Option<String> {
+    if p.site.contains("disjoint-sets") && p.msg.contains("already borrowed") {
+        return Some("root:cyclic-type-unionfind-borrow".into());
+    }
+    None
 }
 
 /// Outcome class of a rejected text: the first diagnostic's headline with quoted names removed.
